@@ -60,6 +60,9 @@ def run(ctx: Ctx) -> None:
     ctx.rule("D12.6", "result records are assembled from the parsed packing, "
              "its instance and the named objectives")
     _record_assembly(ctx)
+    ctx.rule("D12.7", "Packing.from_log(file, instance) builds the packing "
+             "for the instance it is given")
+    _given_instance(ctx)
     ctx.assumptions += [
         "P4: process.get_random() is the run's seeded generator; moptipy "
         "derives per-run seeds from the instance name",
@@ -761,3 +764,72 @@ def _record_assembly(ctx: Ctx) -> None:
            "bin_bounds[key](instance) under key, and the instance's sizes"
            if not problems else "; ".join(problems),
            construct="result record assembly")
+
+
+
+# ------------------------------------------------------------------ D12.7
+def _given_instance(ctx: Ctx) -> None:
+    """The packing parsed from a log belongs to the instance the caller
+    hands over (only without one is the name of the SETUP section looked up
+    in the resources): `from_log` passes its `instance` to the parser, the
+    parser stores it in the field from which `end_file` builds the
+    `PackingSpace`."""
+    from sa.srcmodel import bound_args, inline_locals
+    repo = ctx.repo
+    PK = "moptipyapps.binpacking2d.packing"
+    fl = repo.func(PK, "Packing.from_log")
+    pc = repo.module(PK).classes.get("_PackingParser")
+    ctx.need(pc is not None, "_PackingParser")
+    init = ctx.need(pc.methods.get("__init__"), "_PackingParser.__init__")
+    ef = ctx.need(pc.methods.get("end_file"), "_PackingParser.end_file")
+    ip = next((p_ for p_ in fl.params if "inst" in p_), None)
+    pp = next((p_ for p_ in init.params[1:] if "inst" in p_), None)
+    ctx.need(ip is not None and pp is not None, "instance parameters")
+    # (a) from_log -> parser
+    mk = [c for c in ast.walk(fl.node) if isinstance(c, ast.Call)
+          and ast.unparse(c.func) == "_PackingParser"]
+    ok_a = False
+    if len(mk) == 1:
+        a = bound_args(mk[0], list(init.params[1:])).get(pp)
+        ok_a = a is not None and ast.unparse(
+            inline_locals(fl.node, a)) == ip
+    ctx.ob("D12.7", fl, mk[0] if mk else fl.node, ok_a,
+           f"from_log hands its `{ip}` to the parser" if ok_a else
+           (f"from_log does not hand its `{ip}` to _PackingParser: the "
+            "given instance is ignored" if len(mk) == 1 else
+            "the construction of the parser in from_log is not recognised"),
+           construct="from_log passes the instance")
+    # (b) the field end_file builds the space from
+    fld = None
+    for c in ast.walk(ef.node):
+        if isinstance(c, ast.Call) and ast.unparse(c.func).endswith(
+                "PackingSpace") and len(c.args) == 1:
+            e = inline_locals(ef.node, c.args[0])
+            if isinstance(e, ast.Attribute) and isinstance(
+                    e.value, ast.Name) and e.value.id == "self":
+                fld = e.attr
+    if fld is None:
+        ctx.ob("D12.7", ef, ef.node, False,
+               "the field from which end_file builds the PackingSpace is "
+               "not recognised", construct="parser keeps the instance")
+        return
+    stores = [st for st in ast.walk(init.node) if isinstance(
+        st, (ast.Assign, ast.AnnAssign)) and getattr(st, "value", None)
+        is not None and any(isinstance(t, ast.Attribute) and t.attr == fld
+                            for t in (st.targets if isinstance(
+                                st, ast.Assign) else [st.target]))]
+    uses = bool(stores) and all(any(isinstance(x, ast.Name) and x.id == pp
+                                    for x in ast.walk(inline_locals(
+                                        init.node, st.value)))
+                                for st in stores)
+    const = bool(stores) and all(isinstance(st.value, ast.Constant)
+                                 for st in stores)
+    ctx.ob("D12.7", init, stores[0] if stores else init.node, uses,
+           f"the parser stores the given `{pp}` in self.{fld}, from which "
+           "end_file builds the space" if uses else
+           (f"the parser initialises self.{fld} with "
+            f"{ast.unparse(stores[0].value)} and drops the `{pp}` it is "
+            "given: the packing is built for whatever instance of that "
+            "name the resources hold" if const else
+            f"how self.{fld} is initialised from `{pp}` is not recognised"),
+           construct="parser keeps the instance")
